@@ -58,7 +58,9 @@ namespace awkward {
     for (auto x : contents_) {
       x.get()->clear();
     }
-    length_ = -1;
+    if (length_ != -1) {
+      length_ = 0;
+    }
     begun_ = false;
     nextindex_ = -1;
   }
